@@ -36,12 +36,20 @@ SPACES = [" ", "\t", "\xa0", "\u2003", "\u3000", "\x1f"]
 
 # Known C02 defects (DESIGN section 10, rows 4-7): re-observed on every run.
 KNOWN_WITNESSES = [
+    # still present (known findings): re-observed so that KNOWN-FINDING is printed only while they are there
     ("{{ 1e400 }}", {}), ("{% assign x = 1e400 %}{{ x }}", {}),
+    ("{{ [1] }}", {}), ("{{ [a.b] }}", {"a": {"b": 1}}),
+    ("{{ a | compact: 'title' }}", {"a": {}}),
+    ("{{ x | date: '%Y' }}", {"x": "9" * 40}), ("{{ '-10152098955' | date: '%m/%d/%Y' }}", {}),
+    # repaired by proposed_fixes/C02 and C17: must stay repaired
     ("{{ 'inf' | ceil }}", {}), ("{{ 'nan' | ceil }}", {}), ("{{ 'inf' | floor }}", {}),
     ("{{ 'inf' | round }}", {}), ("{{ x | modulo: 0.0 }}", {"x": 5}), ("{{ 'inf' | minus: 'inf' }}", {}),
     ("{{ '50%' | t }}", {}), ("{{ '%(x)d' | t: x: 1 }}", {}),
     ("{% for i in a limit: -1 %}{{ i }}{% endfor %}", {"a": [1, 2, 3]}),
     ("{% for i in a offset: -1 %}{{ i }}{% endfor %}", {"a": [1, 2, 3]}),
+    ("{% for i in a offset: x %}{{ i }}{% endfor %}", {"a": [1, 2, 3], "x": 10 ** 400}),
+    ("{{ (1..a) | first }}", {"a": {}}), ("{{ a | sum }}", {"a": "abc"}),
+    ("{% for i in (1..x) %}{{ i }}{% endfor %}", {"x": 10 ** 400}), ("{{ (1..x) | size }}", {"x": 10 ** 400}),
     ("{{ '", {}), ("{{ ..1) }}", {}), ("{{ \"${ (1..3) }\" }}", {}), ("{{", {}), ("{% liquid", {}),
     ("{% comment %}", {}), ("{{ a b", {}),
 ]
